@@ -65,5 +65,5 @@ def run(ctx):
                    "no session state written on any error exit" if not bad else "error exit may have written self.%s" % ", self.".join(bad),
                    where(fn), cfg, det)
         ctx.floor("no-write-on-error", cnt, 10, cfg)
-        n = roles.check_transport_roles(ctx, cfg, ops_filter={"set_receiving_nonce", "receiving_nonce", "sending_nonce"})
+        n = roles.check_transport_roles(ctx, cfg, ops_filter={"set_receiving_nonce", "receiving_nonce", "sending_nonce"}, kinds=("stateful",))
         ctx.floor("role-index", n, 6, cfg)
